@@ -6,6 +6,8 @@ package main
 
 import (
 	"fmt"
+	"os"
+	"strconv"
 	"strings"
 
 	"verif/harness/e2x"
@@ -17,6 +19,9 @@ func main() { fw.Main() }
 // exploreSpace registers one fw space per scenario: the schedule tree is partitioned into subtrees
 // (deterministically, two levels), each subtree is one case explored depth-first in one worker process.
 func exploreSpace(c *fw.Ctx, prop string, sc *e2x.Scenario, bound int, maxExecPerPart int64, what string) {
+	if b, err := strconv.Atoi(os.Getenv("VERIF_E2_BOUND")); err == nil {
+		bound = b // calibration runs only (never set by a registered command)
+	}
 	rule := fmt.Sprintf("%s — all schedules with ≤ %d preemptions (stateless DFS over scheduling points of the real code; tree split into subtrees, one case each); non-trivial: executions that contain at least one preemption or end in a distinct outcome class are all counted as executions", what, bound)
 	c.Space(sc.Name, rule, true, func(emit func(func(*fw.R))) {
 		parts, internal := e2x.Partition(sc, bound, 2)
